@@ -238,6 +238,23 @@ func scenC02(r *Run) {
 			o, s2 := forged(1 + t.Draw(2))
 			d["actor"], d["object"] = a, o
 			shapes = append(shapes, "actor:"+s, "object:"+s2)
+			if t.Chance(1, 3) {
+				// Lemmy style: the object is an inline Create that wraps the real object. The wrapper
+				// claims an id on the victim's host and embeds a forged copy of the victim's object.
+				vic := victims[1+t.Draw(2)]
+				lie := Doc{}
+				for k, val := range vic.doc {
+					lie[k] = val
+				}
+				lie["name"], lie["content"] = "FORGED NAME", "<p>FORGED WORDS</p>"
+				pu, _ := url.Parse(vic.id)
+				wrapper := Doc{"type": "Create", "actor": vic.doc["attributedTo"], "object": lie}
+				if t.Chance(2, 3) {
+					wrapper["id"] = "https://" + pu.Host + "/act/wrapped"
+				}
+				d["object"] = wrapper
+				shapes = append(shapes, "object:inline-create-claiming-victim-host-wrapping-forgery")
+			}
 		case 2: // an attacker actor whose outbox holds forged activities/objects
 			ob := fmt.Sprintf("https://%s/c/%d", E, seq)
 			var items []any
